@@ -1,6 +1,7 @@
 package main
 
 import (
+	"encoding/hex"
 	"fmt"
 	"sort"
 	"strings"
@@ -369,16 +370,6 @@ func (g *seqGen) next() *Op {
 				} else {
 					op.N = "a"
 				}
-				// open finding (DESIGN.md section 7, D12): a directory can be renamed
-				// into its own subtree (the ancestor check needs a rename-wide lock the
-				// server does not have). The generator avoids exactly that trigger;
-				// everything else about RENAME stays in play.
-				if fd != nil && td != nil && op.H2 != op.H {
-					if id, ok := fd.Kids[op.N]; ok && g.m.Objs[id].Kind == kDIR && g.m.isAncestor(id, td.ID) {
-						op.H2 = op.H
-						td = fd
-					}
-				}
 				if td != nil && r.Chance(0.4) {
 					op.N2 = g.existingName(td)
 				} else {
@@ -426,7 +417,8 @@ func (g *seqGen) emit(op *Op) {
 	op.ID = g.nextID
 	g.nextID++
 	g.ops = append(g.ops, *op)
-	if op.K == "restart" {
+	switch op.K {
+	case "restart", "rawmsg", "rawbytes", "mnt", "umnt", "umntall", "dump", "export", "mountnull":
 		return
 	}
 	in := toIn(op, g.tbl, &g.m.Lim)
@@ -484,10 +476,25 @@ func toIn(op *Op, tbl map[int]string, lim *Limits) *In {
 	if in.Obj, ok = h(op.H); !ok {
 		return nil
 	}
+	if op.HX != "" || op.X == 9 {
+		b, _ := hex.DecodeString(op.HX)
+		in.Obj = string(b) // X == 9 with empty HX: the empty handle
+	}
+	if op.NX != "" {
+		b, _ := hex.DecodeString(op.NX)
+		in.Name = string(b)
+	}
+	if op.X == 7 {
+		in.BadCookie = true
+	}
 	switch op.K {
 	case "rename", "link":
 		if in.Obj2, ok = h(op.H2); !ok {
 			return nil
+		}
+		if op.HX2 != "" {
+			b, _ := hex.DecodeString(op.HX2)
+			in.Obj2 = string(b)
 		}
 	}
 	switch op.K {
@@ -538,4 +545,159 @@ func toIn(op *Op, tbl map[int]string, lim *Limits) *In {
 		in.Off, in.Count = op.Off, op.Len
 	}
 	return in
+}
+
+// ---- adversarial requests (C11) ----
+
+var advU64 = []uint64{0, 1, 4095, 4096, 1<<31 - 1, 1 << 31, 1<<32 - 1, 1 << 32, 1<<32 + 1, 1<<63 - 1, 1 << 63, 1<<64 - 1, 1<<64 - 2, 1<<64 - 4096, 1<<64 - 4097}
+var advCnt = []uint64{0, 1, 100, 4096, 65536, 1 << 20, 1 << 31, 1<<32 - 1}
+var advKinds = []string{"getattr", "setattr", "lookup", "access", "readlink", "read", "write", "create", "mkdir", "symlink", "mknod", "remove", "rmdir",
+	"rename", "link", "readdir", "readdirplus", "fsstat", "fsinfo", "pathconf", "commit", "null"}
+
+func (g *seqGen) garbageHandle() string {
+	r := g.rng
+	l := []int{0, 1, 7, 8, 9, 15, 16, 16, 16, 17, 24, 32, 63, 64}[r.Intn(14)]
+	b := make([]byte, l)
+	for i := range b {
+		b[i] = byte(r.Uint64())
+	}
+	if l >= 16 {
+		switch r.Intn(4) {
+		case 0: // a plausible inode number with a wrong generation
+			for i := 0; i < 8; i++ {
+				b[i] = 0
+			}
+			b[0] = byte(1 + r.Intn(12))
+		case 1: // inode number just beyond / far beyond the table
+			v := []uint64{32767, 32768, 32769, 1 << 20, 1 << 40, 1<<64 - 1}[r.Intn(6)]
+			for i := 0; i < 8; i++ {
+				b[i] = byte(v >> (8 * i))
+			}
+		}
+	}
+	return hex.EncodeToString(b)
+}
+
+func (g *seqGen) advName() (string, string) {
+	r := g.rng
+	switch r.Intn(6) {
+	case 0:
+		return "", "" // empty
+	case 1:
+		return []string{".", ".."}[r.Intn(2)], ""
+	case 2:
+		l := []int{110, 111, 112, 113, 128, 255, 256, 300}[r.Intn(8)]
+		return strings.Repeat("N", l), ""
+	case 3:
+		// arbitrary bytes incl. '/', NUL and non-UTF-8
+		l := 1 + r.Intn(20)
+		b := make([]byte, l)
+		for i := range b {
+			b[i] = byte(r.Uint64())
+		}
+		for i := range b {
+			if b[i] == '/' {
+				b[i] = '\\' // (paths in reports are joined with '/'; a '/' inside a name is latitude anyway)
+			}
+		}
+		if r.Chance(0.3) {
+			b[r.Intn(l)] = 0
+		}
+		return "x", hex.EncodeToString(b)
+	default:
+		return g.names[r.Intn(len(g.names))], ""
+	}
+}
+
+func (g *seqGen) advOp() *Op {
+	r := g.rng
+	op := &Op{K: advKinds[r.Intn(len(advKinds))]}
+	if r.Chance(0.55) {
+		op.HX = g.garbageHandle()
+		if op.HX == "" {
+			op.X = 9
+		}
+	} else if !g.handleRef(op, false, kDIR, kREG, kLNK) {
+		op.HX = g.garbageHandle()
+	}
+	switch op.K {
+	case "rename", "link":
+		if r.Chance(0.5) {
+			op.HX2 = g.garbageHandle()
+		} else {
+			g.handleRef(op, true, kDIR)
+		}
+		op.N, op.NX = g.advName()
+		op.N2, _ = g.advName()
+	case "lookup", "create", "mkdir", "symlink", "mknod", "remove", "rmdir":
+		op.N, op.NX = g.advName()
+		op.Len = uint64(r.Intn(40))
+		op.Pat = g.nextPat
+		g.nextPat++
+		op.How = r.Intn(3)
+	case "read":
+		op.Off = advU64[r.Intn(len(advU64))]
+		op.Len = advCnt[r.Intn(len(advCnt)-2)]
+		if r.Chance(0.04) {
+			op.Len = advCnt[len(advCnt)-1-r.Intn(2)] // 2^31, 2^32-1: costly (fills every hole of the file)
+		}
+	case "write":
+		op.Off = advU64[r.Intn(len(advU64))]
+		op.Cnt = advCnt[r.Intn(len(advCnt))]
+		op.Len = []uint64{0, 1, 100, 4096, 8192}[r.Intn(5)] // bytes of data actually supplied
+		if r.Chance(0.3) {
+			op.Cnt = op.Len
+		}
+		op.Pat = g.nextPat
+		g.nextPat++
+		op.How = r.Intn(3)
+	case "setattr":
+		op.Off = advU64[r.Intn(len(advU64))]
+	case "commit":
+		op.Off = advU64[r.Intn(len(advU64))]
+		op.Len = advCnt[r.Intn(len(advCnt))]
+	case "readdir", "readdirplus":
+		op.Off = advU64[r.Intn(len(advU64))]
+		if r.Chance(0.5) {
+			op.Off = uint64(r.Intn(5000)) // misaligned / never issued
+		}
+		op.X = 7
+		op.Len = advCnt[r.Intn(len(advCnt))]
+		op.Cnt = advCnt[r.Intn(len(advCnt))]
+	}
+	return op
+}
+
+// mutateMsg produces a byte-level mutation of a well-formed call message.
+func (g *seqGen) mutateMsg(msg []byte) []byte {
+	r := g.rng
+	b := append([]byte{}, msg...)
+	switch r.Intn(6) {
+	case 0: // truncate
+		if len(b) > 4 {
+			b = b[:r.Intn(len(b))]
+		}
+	case 1: // corrupt a 4-byte aligned word (length fields, discriminants)
+		if len(b) >= 8 {
+			i := 4 * r.Intn(len(b)/4)
+			v := []uint32{0, 1, 2, 0xffffffff, 0x7fffffff, 0x80000000, 65, 1 << 20}[r.Intn(8)]
+			b[i], b[i+1], b[i+2], b[i+3] = byte(v>>24), byte(v>>16), byte(v>>8), byte(v)
+		}
+	case 2: // flip random bytes
+		for k := 0; k < 1+r.Intn(4) && len(b) > 0; k++ {
+			b[r.Intn(len(b))] ^= byte(1 << uint(r.Intn(8)))
+		}
+	case 3: // append garbage
+		for k := 0; k < 1+r.Intn(64); k++ {
+			b = append(b, byte(r.Uint64()))
+		}
+	case 4: // wrong rpc version / program / procedure
+		if len(b) >= 24 {
+			i := 8 + 4*r.Intn(4)
+			b[i+3] ^= byte(1 + r.Intn(200))
+		}
+	default: // zero-length
+		b = b[:0]
+	}
+	return b
 }
